@@ -10,7 +10,9 @@ Discretisation claims are never judged with an absolute tolerance:  (i) first-or
 (ii) the max-norm error over the fixed r / fixed k points shrinks under refinement (ratio < 0.65), (iii) the Richardson
 limit 2Q(dr/2) - Q(dr) on the finest pair is within a second-order envelope of the exact value.
 """
+import json
 import math
+import zlib
 
 import numpy as np
 from scipy.integrate import quad
@@ -108,13 +110,13 @@ def run_pyhs(ctx, case):
         s_reused = None
         for e_step in [x for x in (0.15, 0.3, 0.4) if x < eta - 0.02] + [eta]:
             sp = dict(types=['A'], dr=dr, L=L, d={'A': d}, rho={'A': 6 * e_step / (math.pi * d ** 3)}, kT=kT, pot={'A|A': {'t': 'HS'}}, clo={'A|A': {'t': 'PY', 'hc': case['hc']}}, om={'A|A': {'t': 'SS'}},
-                      via=case.get('via', 'dr'), kT_via=case.get('kT_via', 'ctor'))
+                      via=case.get('via', 'dr'), kT_via=case.get('kT_via', 'ctor'), labels={'A': label_of(case)})
             if case.get('reuse'):
                 # a density sweep on ONE System object, as the tutorials do
                 if s_reused is None:
                     s_reused = G.build(sp)
                 else:
-                    s_reused.density['A'] = sp['rho']['A']
+                    s_reused.density[G.fresh(label_of(case))] = sp['rho']['A']
                 p = s_reused.createPRISM()
             else:
                 p = G.build(sp).createPRISM()
@@ -124,16 +126,16 @@ def run_pyhs(ctx, case):
             guess = np.array(res.x)
         if case.get('reuse'):
             # the sweep goes on before the collected object is post-processed
-            s_reused.density['A'] = sp['rho']['A'] * 0.37
+            s_reused.density[G.fresh(label_of(case))] = sp['rho']['A'] * 0.37
             s_reused.kT = kT * 2.0
-            s_reused.diameter['A'] = d + dr
+            s_reused.diameter[G.fresh(label_of(case))] = d + dr
         r, k, dk = R.grids(L, dr)
-        g = np.array(pyPRISM.calculate.pair_correlation(p)['A', 'A'])
+        g = np.array(pyPRISM.calculate.pair_correlation(p)[G.fresh(label_of(case)), G.fresh(label_of(case))])
         if g.min() < -1e-3:
             raise core.Skip('solver converged to an unphysical root (g < 0)')
-        S = np.array(pyPRISM.calculate.structure_factor(p)['A', 'A'])
-        B2 = float(pyPRISM.calculate.second_virial(p)['A', 'A'])
-        Ck = np.array(p.directCorr['A', 'A'])
+        S = np.array(pyPRISM.calculate.structure_factor(p)[G.fresh(label_of(case)), G.fresh(label_of(case))])
+        B2 = float(pyPRISM.calculate.second_virial(p)[G.fresh(label_of(case)), G.fresh(label_of(case))])
+        Ck = np.array(p.directCorr[G.fresh(label_of(case)), G.fresh(label_of(case))])
         c = R.to_real(Ck, dr) if L <= 512 else np.array(p.sys.domain.to_real(Ck))
         ic = int(round(d / dr))                  # index of the first grid point outside the core (r = d + dr)
         nk = int(12.0 / d / dk)
@@ -167,6 +169,12 @@ def run_pyhs(ctx, case):
                                      'S0': [float(q['S0']) for q in rows], 'S0_exact': ex['S0']}}, limit=3)
 
 
+def label_of(case):
+    """the site label of the one-component system: a literal, or a name computed at run time (equal to, but not the same object as, the
+    one the System was created with - gen.build and every access below make a new equal string)"""
+    return ['A', 'monomer', 'bead_1'][zlib.crc32(json.dumps(case, sort_keys=True, default=str).encode()) % 3]
+
+
 def dilute_spec(case, dr):
     pot = case['pot']
     eps = case['eps']
@@ -175,7 +183,7 @@ def dilute_spec(case, dr):
     cs = {'t': case['clo'], 'hc': case['clo'] == 'MSA' or bool(case.get('hc'))}
     L = int(round(case.get('rmax', 25.6) / dr))
     return dict(types=['A'], dr=dr, L=L, d={'A': 1.0}, rho={'A': 6 * 10.0 ** case.get('rho_exp', -7) / math.pi}, kT=case['kT'], pot={'A|A': ps}, clo={'A|A': cs}, om={'A|A': {'t': 'SS'}},
-                via=case.get('via', 'dr'), kT_via=case.get('kT_via', 'ctor'))
+                via=case.get('via', 'dr'), kT_via=case.get('kT_via', 'ctor'), labels={'A': label_of(case)})
 
 
 def h_exact(ps, clo, kT, x, hc=False):
@@ -212,8 +220,8 @@ def run_dilute(ctx, case):
         if res is None:
             raise core.Skip('dilute level did not converge')
         r = R.grids(sp['L'], dr)[0]
-        g = np.array(pyPRISM.calculate.pair_correlation(p)['A', 'A'])
-        B2 = float(pyPRISM.calculate.second_virial(p)['A', 'A'])
+        g = np.array(pyPRISM.calculate.pair_correlation(p)[G.fresh(label_of(case)), G.fresh(label_of(case))])
+        B2 = float(pyPRISM.calculate.second_virial(p)[G.fresh(label_of(case)), G.fresh(label_of(case))])
         rows.append({'dr': dr, 'g': g, 'r': r, 'B2': B2})
         ps, cs = sp['pot']['A|A'], sp['clo']['A|A']
     ctx.hook('dilute.family')
